@@ -76,6 +76,10 @@ package responder
 // httpstatus(w) / httpwrites(w) are the status line and the number of writes seen
 // by w, wbody(w) the reader whose bytes went out as the body, wlen(w) the length
 // framing used by http.Response.Write (-1: chunked).
+// Statuses that cannot carry a body (RFC 9110 6.4.1): on a tunnel they are sent with no body
+// framing at all - the terminating chunk of an empty chunked body would be read by the client
+// as the start of the next response.
+//@ spec func specBodyAllowed(status int) bool = !(status >= 100 && status <= 199) && status != 204 && status != 304
 //@ spec func specEffStatus(w any) int = httpwrites(w) == 0 ? 200 : httpstatus(w)
 
 //@ props C08 C10 C16
@@ -147,10 +151,11 @@ package responder
 //@   assigns http.Response@c.response ghost:httpstatus ghost:httpwrites
 //@   requires c.response != nil && c.response.Header != nil && c.writer != nil && 100 <= status && status <= 999
 //@   ensures [C08,C16] httpstatus(c.writer) == status && httpwrites(c.writer) == old(httpwrites(c.writer)) + 1
-//@   ensures [C08,C01] readall(wbody(c.writer)) == readall(body) && readlen(wbody(c.writer)) == readlen(body)
+//@   ensures [C08,C01] specBodyAllowed(status) ==> readall(wbody(c.writer)) == readall(body) && readlen(wbody(c.writer)) == readlen(body)
 //@   ensures [C08,C10] whdr(c.writer) == ident(c.response.Header) && c.response.Header == old(c.response.Header)
-//@   ensures [C01,C08] in(c.response.Header, canonkeyof("Content-Length")) && len(c.response.Header[canonkeyof("Content-Length")]) > 0 && parseok64(sid(c.response.Header[canonkeyof("Content-Length")][0])) ==> wlen(c.writer) == decval(sid(c.response.Header[canonkeyof("Content-Length")][0]))
-//@   ensures [C01,C08] !in(c.response.Header, canonkeyof("Content-Length")) ==> wlen(c.writer) == -1
+//@   ensures [C01,C08] specBodyAllowed(status) && in(c.response.Header, canonkeyof("Content-Length")) && len(c.response.Header[canonkeyof("Content-Length")]) > 0 && parseok64(sid(c.response.Header[canonkeyof("Content-Length")][0])) ==> wlen(c.writer) == decval(sid(c.response.Header[canonkeyof("Content-Length")][0]))
+//@   ensures [C01,C08] specBodyAllowed(status) && !in(c.response.Header, canonkeyof("Content-Length")) ==> wlen(c.writer) == -1 && wte(c.writer) == 1
+//@   ensures [C10,C16] !specBodyAllowed(status) ==> wlen(c.writer) == 0 && wte(c.writer) == 0
 
 //@ props C08 C10 C16
 //@ func RawHTTPResponder.WriteEmpty
@@ -166,7 +171,7 @@ package responder
 //@   assigns http.Response@c.response map_@c.response.Header ghost:httpstatus ghost:httpwrites
 //@   requires c.response != nil && c.response.Header != nil && c.writer != nil && 100 <= errorCode && errorCode <= 999
 //@   ensures [C08,C16] httpstatus(c.writer) == errorCode && httpwrites(c.writer) == old(httpwrites(c.writer)) + 1
-//@   ensures [C08,C10] whdr(c.writer) == ident(c.response.Header) && wlen(c.writer) == len(message)
+//@   ensures [C08,C10] whdr(c.writer) == ident(c.response.Header) && (specBodyAllowed(errorCode) ==> wlen(c.writer) == len(message))
 
 // A successful Hijack hands over a connection (the tunnel code writes to it at once).
 //@ props C10 C16
